@@ -29,30 +29,43 @@ class C04(Property):
     thorough_cases = 9000
     design_ref = "DESIGN.md §6/C04"
     level_text = ("Unbounded Rocq theorems over an interleaving model (threads: handler script H, Done event D, the wrapper's "
-                  "select S) of rest/handler.TimeoutHandler, zrpc UnaryTimeoutInterceptor, fx.DoWithTimeout and the client "
-                  "TimeoutInterceptor: for every handler script and every schedule the client-visible response is the handler's "
-                  "complete response, the 503/499 (DeadlineExceeded/Canceled) timeout response, or the re-raised panic; nothing "
-                  "is written after the timeout; the timeout branch is enabled as soon as D fired, whatever H does; the derived "
-                  "deadline is min(caller's, now+timeout); websocket/SSE requests bypass the wrapper. Tied to the code by "
-                  "controller-forced schedules (D at every script position, via cancel, real 3 ms timeout, and a D/handler race).")
+                  "select S) of rest/handler.TimeoutHandler (incl. the locked Flush and net/http's 1xx semantics of the real "
+                  "writer), the rest engine's choice of a route's timeout (route options, server config, SSE routes, "
+                  "Read/WriteTimeout), zrpc UnaryTimeoutInterceptor, fx.DoWithTimeout and the client TimeoutInterceptor: for every "
+                  "handler script and every schedule the client-visible response is the handler's complete response, the 503/499 "
+                  "(DeadlineExceeded/Canceled, decided by the first Done event) timeout response, or the re-raised panic; nothing "
+                  "reaches the client after the timeout (Write refused, Flush ignored); the timeout branch is enabled as soon as D "
+                  "fired, whatever H does; the derived deadline is min(caller's, now+chosen timeout); websocket/SSE requests bypass "
+                  "the wrapper and are not cut; requests (calls) through one instance / one server are isolated. Tied to the code by "
+                  "controller-forced schedules (D at every script position, via cancel, real timeout, and a D/handler race) against "
+                  "handler.TimeoutHandler, a real rest.Server bound to its router, and the interceptors; constants and source shapes "
+                  "regenerated into coq/gen/C04Consts.v with GenProofs obligations.")
     level_note = ("Trusted: Coq kernel + vm_compute; hand-written LTS (each mutex-protected method / channel operation is one "
                   "atomic action; validated by a free-running -race monitor in the thorough tier); context.WithTimeout modelled "
                   "as min(parent, now+d); the executor linearises what it observed (S's position is inferred from write errors "
-                  "and the response); Hijacker/Pusher pass-throughs are outside the handler behaviours covered.")
-    rule = ("REST: scripts of 0..7 actions (header set/add/del, WriteHeader incl. invalid codes, Write chunks, ctx check, panic), "
-            "D = none | cancel | real timeout / parent deadline | race at EVERY script position, plus websocket/SSE/zero-timeout "
-            "exemptions; sequences of 2-3 requests through ONE TimeoutHandler instance with the first handler abandoned at its "
-            "timeout and released at every position of the later request's life; the same for 2-3 calls through one "
-            "UnaryTimeoutInterceptor instance / fx.DoWithTimeout (abandoned work returns or panics while a later call is in "
-            "flight, later call cancelled or with its own 3 ms deadline, half under GOMAXPROCS(1)); zRPC server + fx: work scripts with D at every position; client interceptor and rest engine: timeout "
-            "selection. Non-trivial = D fired strictly inside the script (not before the first or after the last action) and "
-            "the script writes at least one body chunk or header, or (slot) D fired while the work was running; distinct = "
-            "canonical JSON hash of the input")
+                  "and the response); the real writer is a double with net/http server semantics; Hijacker/Pusher pass-throughs "
+                  "are outside the handler behaviours covered. Known finding C04-informational-status (1xx written first is "
+                  "recorded as the status).")
+    rule = ("REST: scripts of 0..7 actions (header set/add/del, WriteHeader incl. invalid and 1xx codes, Write chunks, Flush, "
+            "ctx check, panic) on a Flusher or non-Flusher writer, D = none | cancel | real timeout / parent deadline | race at "
+            "EVERY script position, plus websocket/SSE/zero-timeout exemptions; sequences of 2-3 requests through ONE "
+            "TimeoutHandler instance with the first handler abandoned at its timeout and released at every position of the "
+            "later request's life; real rest.Server cases: 2-4 route groups with option lists (WithTimeout / WithSSE in any "
+            "order, repeated, <= 0), conf.Timeout 0 / 1 min / 1 h, timeout middleware on/off, inner middlewares on/off, 2-3 "
+            "requests (plain / websocket / event-stream / near-miss headers, caller deadline earlier or later than the route's, "
+            "real 20 ms route timeout) interleaved on one router; the same for 2-3 calls through one UnaryTimeoutInterceptor "
+            "instance / fx.DoWithTimeout (abandoned work returns or panics while a later call is in flight, later call cancelled "
+            "or with its own 3 ms deadline, half under GOMAXPROCS(1)); zRPC server + fx: work scripts with D at every position; "
+            "client interceptor: timeout selection. Non-trivial = D fired strictly inside the script (not before the first or "
+            "after the last action) and the script writes at least one body chunk or header, or (slot) D fired while the work was "
+            "running, or (server) a wrapped request was ended by its Done event while another request of the same server was in "
+            "flight; distinct = canonical JSON hash of the input")
     trusted_base = [
         "model theories/C04/Model.v is hand-written; tie = correspondence run (harness/cmd/c04 + overlay tests) on forced schedules",
         "atomicity of tw.mu-protected methods and channel operations (validated by the -race free-run, thorough tier)",
         "context.WithTimeout/WithCancel (stdlib) behave as min(parent, now+d) / sticky first error",
-        "the REST real writer is a test double with net/http semantics (first WriteHeader/Write freezes status+headers)",
+        "the REST real writer is a test double with net/http server semantics (first final WriteHeader/Write/Flush freezes status+headers; 1xx except 101 are informational)",
+        "tools/c04consts.py extracts constants / source shapes by regular expressions over gofmt'ed sources (fails loudly when a declaration is not found)",
         "httpx error handler left at its default (no httpx.SetErrorHandler)",
     ]
     assumptions = ["handler does not use http.Hijacker / Pusher (websocket upgrades, which do, are exempt)",
@@ -174,7 +187,8 @@ class C04(Property):
                 acts.append(["panic", rng.randint(1, 9)])
         # most 1xx codes come after a final status (ignored by every writer); one in three
         # scripts that start with a 1xx keeps it (known finding C04-informational-status)
-        if rng.random() < 0.67:
+        # ... and never together with Flush (the known-finding shape is kept narrow: no flush-through)
+        if rng.random() < 0.67 or any(a[0] == "flush" for a in acts):
             acts = self._no_info_first(self._no_info_first(acts, True), False)
         return acts
 
@@ -643,8 +657,8 @@ class C04(Property):
             free = []
             for i in range(12):
                 script = [a for a in self._script(rng) + self._script(rng)
-                          if a[0] in ("set", "add", "del", "w") or (a[0] == "wh" and a[1] in CODES)]
-                free.append({"id": i, "kind": "free", "req": "plain", "dur_ns": 0, "parent_ns": None,
+                          if a[0] in ("set", "add", "del", "w", "flush") or (a[0] == "wh" and a[1] in CODES and a[1] != 101)]
+                free.append({"id": i, "kind": "free", "req": "plain", "dur_ns": 0, "parent_ns": None, "fl": i % 2 == 0,
                              "h0": self._h0(rng), "script": script, "d": {"mode": "none", "pos": 1500}})
             forced = [c for c in self.gen(rng, 400, "thorough") if c["kind"] in ("rest", "fx", "seq", "fxseq")]
             for j, c in enumerate(forced):
@@ -677,6 +691,18 @@ class C04(Property):
                 fails.append({"what": "data race in UnaryTimeoutInterceptor under -race", "replay": {"output": out[-6000:]}})
             elif rc != 0:
                 raise ExecError("c04 zrpc -race run rc=%s: %s" % (rc, out[-2000:]))
+            sv = [c for c in self.gen(rng, 700, "thorough") if c["kind"] == "srv"][:80]
+            for j, c in enumerate(sv):
+                c["id"] = j
+            files = {"rest/verif_c04_test.go": os.path.join(OV, "rest", "verif_c04_test.go"),
+                     "rest/verif_c04_restctl_test.go": self._slotctl_copy("rest", "restctl.go")}
+            rc, out, rs = vlib.go_test_overlay("./rest", files, run="^TestVerifC04$", cases=sv, tag="c04srvrace",
+                                               timeout=1200, race=True)
+            if "DATA RACE" in out:
+                fails.append({"what": "data race in the rest engine / timeout handler (server cases) under -race",
+                              "replay": {"output": out[-6000:]}})
+            elif rc != 0:
+                raise ExecError("c04 srv -race run rc=%s: %s" % (rc, out[-2000:]))
         finally:
             vlib.go_build("c04")
         return fails
